@@ -54,7 +54,6 @@ func TestVF_C08_SnapshotSuffix(t *testing.T) {
 
 func checkC08(t *rapid.T, tr *twinRun) {
 	c, a, inc := tr.c, tr.a, tr.cInc
-	_ = c
 	if tr.ssIndex > 0 {
 		if tr.ssIndex != tr.k {
 			vfhelp.Fail(t, "c08-snapshot-index", "snapshot requested with %d applied captured index %d", tr.k, tr.ssIndex)
